@@ -325,5 +325,133 @@ theorem progress_keepalive (a : AEAD) (hl : a.Laws) {c : NetcodeClient} {s : Net
   simp only [Packet.stepWindow, Packet.packetType, PacketType.applyReplayProtection, Option.map_some,
     if_true, Option.getD_some, hst]
 
+/-! ## Part 16 : client, step 0 — the request; and the lossless four-message exchange -/
+
+/-- the client's token agrees with the private token `t` sealed for server `s` -/
+structure TokenFor (a : AEAD) (s : NetcodeServer) (t : PrivateConnectToken) (expire : Nat) (xnonce : Bytes)
+    (ct : ConnectToken) : Prop where
+  pid : ct.protocolId = s.protocolId
+  exp : ct.expireTimestamp = expire
+  xn : ct.xnonce = xnonce
+  priv : ct.privateData = sealedPriv a s t expire xnonce
+  c2s : ct.clientToServerKey = t.clientToServerKey
+  s2c : ct.serverToClientKey = t.serverToClientKey
+
+/-- **Progress, the client sends the request** (no packet sent yet). -/
+theorem progress_send_request (a : AEAD) (hl : a.Laws) {c : NetcodeClient} {s : NetcodeServer}
+    {t : PrivateConnectToken} {expire : Nat} {xnonce : Bytes} (htok : TokenFor a s t expire xnonce c.connectToken)
+    (hwf : PTokenWF t) (hxn : xnonce.length = 24)
+    (hst : c.state = .sendingConnectionRequest) (hsend : c.lastPacketSendTime = none) (hseq : c.sequence < U64_MAX) :
+    c.generatePacket a = .ok (some (requestBytes a s t expire xnonce, c.serverAddr),
+      { c with lastPacketSendTime := some c.currentTime, sequence := c.sequence + 1 }) := by
+  have hen : (Packet.connectionRequest C.NETCODE_VERSION_INFO c.connectToken.protocolId c.connectToken.expireTimestamp
+      c.connectToken.xnonce c.connectToken.privateData).encode a C.NETCODE_MAX_PACKET_BYTES c.connectToken.protocolId
+      (some (c.sequence, c.connectToken.clientToServerKey)) = .ok (requestBytes a s t expire xnonce) := by
+    rw [Packet.encode_request_eq, htok.pid, htok.exp, htok.xn, htok.priv]
+    have := sealedPriv_length a hl s hwf expire xnonce
+    rw [if_pos]
+    · rfl
+    · simp only [Packet.body, List.length_append, leBytes_length, this, hxn]
+      decide
+  rcases c with ⟨st, f2, f3, ls, f5, f6, f7, f8, f9, f10, f11, f12, f13, f14, f15, f16⟩
+  simp only at hst hsend hseq hen
+  subst hst hsend
+  unfold NetcodeClient.generatePacket
+  simp only [pure_eq', bind_ok', Bool.false_eq_true, if_false, if_true, hen, incU64_ok _ hseq]
+
+/-- the client after sending the request / storing the challenge / sending the response -/
+abbrev clientSent (c : NetcodeClient) : NetcodeClient :=
+  { c with lastPacketSendTime := some c.currentTime, sequence := c.sequence + 1 }
+abbrev clientChallenged (a : AEAD) (s : NetcodeServer) (t : PrivateConnectToken) (c : NetcodeClient) : NetcodeClient :=
+  { c with challengeTokenSequence := s.challengeSequence + 1, lastPacketReceivedTime := c.currentTime
+           lastPacketSendTime := none
+           challengeTokenData := challengeToken a s t.clientId t.userData (s.challengeSequence + 1)
+           state := .sendingConnectionResponse }
+
+theorem challengeToken_congr (a : AEAD) {s s' : NetcodeServer} (h : s'.challengeKey = s.challengeKey) (id : Nat)
+    (ud : Bytes) (cs : Nat) : challengeToken a s' id ud cs = challengeToken a s id ud cs := by
+  unfold challengeToken; rw [h]
+
+/-- **`handshake_round_partial`** — the lossless four-message exchange connects both sides.  An honest client (state
+    `SendingConnectionRequest`, nothing sent yet, window not containing sequence 0) holding a token for server `s`
+    (private part `t`, well-formed, sealed under the server's key, unexpired, (secure) listing a public address of the
+    server), talking from an address that is neither connected nor half-open, `t.clientId` not connected, room in the
+    pending map, token not bound elsewhere, fewer than `max_clients` connected:
+      request → `PacketToSend addr challenge` → client in `SendingConnectionResponse` → response →
+      `ClientConnected t.clientId addr t.userData keep-alive` → client `Connected`,
+    and the server's slot table then holds a session with exactly the token's id, that address and the token's user
+    data.  MISSING (hence `_partial`): the `update(d)` wrappers with elapsed time and the send-rate gate (only
+    `progress_update_response` is stated with `update`), retransmission after loss / duplication, and the bounded-time
+    claim; the step lemmas `progress_*` apply to every retry individually. -/
+theorem handshake_round_partial (a : AEAD) (hl : a.Laws) {s : NetcodeServer} {c0 : NetcodeClient} {addr : Addr}
+    {t : PrivateConnectToken} {expire : Nat} {xnonce : Bytes}
+    (hi : ServerInv s) (hg : s.globalSequence + 1 < U64_MAX) (hc : s.challengeSequence + 1 < U64_MAX)
+    (hwf : PTokenWF t) (hxn : xnonce.length = 24) (hexp : expire < 2 ^ 64) (hpid : s.protocolId < 2 ^ 64)
+    (hnow : asSecs s.currentTime < expire)
+    (hhost : s.secure = true → ∃ x, some x ∈ t.serverAddresses ∧ x ∈ s.publicAddresses)
+    (hfa : findClientByAddr s.clients addr = none) (hfi : findClientById s.clients t.clientId = none)
+    (hpf : pendingFind s.pendingClients addr = none)
+    (hroom : s.pendingClients.length < C.NETCODE_MAX_PENDING_CLIENTS)
+    (hbind : (s.findOrAddConnectTokenEntry ⟨s.currentTime, addr, tokenMac (sealedPriv a s t expire xnonce)⟩).2 = true)
+    (hlt : countConnected s.clients < s.maxClients)
+    (htok : TokenFor a s t expire xnonce c0.connectToken) (hst : c0.state = .sendingConnectionRequest)
+    (hsend : c0.lastPacketSendTime = none) (hseq : c0.sequence + 1 < U64_MAX)
+    (hrp : c0.replayProtection.alreadyReceived 0 = false) :
+    ∃ req c1 chal s1 c2 resp c3 ka s2 c4 i cn,
+      c0.generatePacket a = .ok (some (req, c0.serverAddr), c1) ∧
+      s.processPacket a addr req = .ok (.packetToSend addr chal, s1) ∧
+      c1.processPacket a chal = .ok (none, c2) ∧ c2.state = .sendingConnectionResponse ∧
+      c2.generatePacket a = .ok (some (resp, c0.serverAddr), c3) ∧
+      s1.processPacket a addr resp = .ok (.clientConnected t.clientId addr t.userData ka, s2) ∧
+      c3.processPacket a ka = .ok (none, c4) ∧ c4.state = .connected ∧
+      At s2.clients i cn ∧ cn.clientId = t.clientId ∧ cn.addr = addr ∧ cn.userData = t.userData ∧
+      s2.isClientConnected t.clientId = true := by
+  have hU : U64_MAX = 2 ^ 64 - 1 := rfl
+  -- 0. the request
+  have h0 := progress_send_request a hl htok hwf hxn hst hsend (by omega)
+  -- 1. the challenge
+  obtain ⟨s1, h1, hp1, hcl1, hcs1, hgs1, hck1, hpid1, hmax1, hnow1⟩ :=
+    progress_request a hl (addr := addr) hi (by omega) (by omega) hwf hxn hexp hpid hnow hhost hfa hfi hpf hroom hbind hlt
+  have hi1 : ServerInv s1 := ppOut_inv hi (pp_ok hi h1)
+  -- 2. the client stores the challenge
+  have h2 := progress_challenge a hl (s := s) (t := t) (c := clientSent c0) hst htok.s2c htok.pid
+    (by omega) (by omega) hwf.userData
+  -- 3. the response
+  have h3 := progress_send_response a hl (c := clientChallenged a s t (clientSent c0))
+    rfl rfl (by show c0.sequence + 1 < U64_MAX; omega) (challengeToken_length a hl s t.clientId hwf.userData _)
+  -- 4. the server connects
+  obtain ⟨i, hff⟩ : ∃ i, firstFreeSlot s.clients = some i := by
+    cases hf : firstFreeSlot s.clients with
+    | some i => exact ⟨i, rfl⟩
+    | none =>
+      have := firstFree_none_count.mp hf
+      have := hi.maxLe
+      omega
+  obtain ⟨s2, h4, hcl2, hpd2⟩ := progress_response a hl (s := s1) (addr := addr)
+    (p := mkPending s.currentTime addr expire t) (i := i) (seq := c0.sequence + 1) (cs := s.challengeSequence + 1)
+    hi1 (by rw [hgs1]; omega) (by rw [hcs1]; omega) (by rw [hcl1]; exact hfa) hp1 (by rw [hcl1]; exact hfi)
+    (by rw [hcl1]; exact hff) hwf.userData hwf.clientId (by omega) (by omega)
+  -- 5. the client connects
+  have h5 := progress_keepalive a hl (s := s1) (p := mkPending s.currentTime addr expire t) (i := i)
+    (c := clientSent (clientChallenged a s t (clientSent c0)))
+    rfl htok.s2c (by rw [hpid1]; exact htok.pid) (by show (0 : Nat) < 2 ^ 64; decide) hrp
+  have hlt_i : i < s1.clients.length := by
+    rw [hcl1]; exact (List.getElem?_eq_some_iff.mp (firstFree_some hff)).1
+  refine ⟨_, _, _, s1, _, _, _, _, s2, _, i, promoted (mkPending s.currentTime addr expire t) RP.new s1.currentTime,
+    h0, h1, h2, rfl, h3, ?_, h5, rfl, ?_, rfl, rfl, rfl, ?_⟩
+  · -- the response datagram of the client is the one `progress_response` talks about
+    have : responseBytes a (clientChallenged a s t (clientSent c0)) =
+        Packet.sealedBytes a (.response (s.challengeSequence + 1)
+          (challengeToken a s1 t.clientId t.userData (s.challengeSequence + 1))) s1.protocolId (c0.sequence + 1)
+          t.clientToServerKey := by
+      unfold responseBytes
+      simp only
+      rw [htok.pid, htok.c2s, hpid1, challengeToken_congr a hck1]
+    rw [this]
+    exact h4
+  · rw [hcl2]; exact at_set_self hlt_i
+  · rw [isClientConnected_iff]
+    exact ⟨i, _, by rw [hcl2]; exact at_set_self hlt_i, rfl⟩
+
 end NS
 end RenetVerif.Netcode
